@@ -341,7 +341,7 @@ Definition fn_decl (kw : TokenKind) : cmd :=
     When (check KIdent) (MarkKind KIdentFunction ;; Bump) ;;
     When (check KParenBegin) (Call FParamList) ;;
     When (check KArrow) (Bump ;; Call FType) ;;
-    When (check KBlockBegin) (Call FBlockExpr)).
+    If (check KBlockBegin) (Call FBlockExpr) (Expect KBlockBegin)).     (* the body is mandatory: expect reports its absence *)
 
 (* the `while let Some(token_kind) = self.peek()` loop of parse_expr_with_precedence (nolb = false) and of
    parse_expr_with_precedence_no_linebreak (nolb = true), min_prec = p; one `If` per arm of get_infix_precedence *)
@@ -575,7 +575,7 @@ Definition body (f : fname) : cmd :=
       Node SLambdaExpr (
         Expect KLambdaArgBeginEnd ;; Call FLambdaParamLoop ;; Expect KLambdaArgBeginEnd ;;
         When (check KArrow) (Bump ;; Call FType) ;;
-        When (CNot CAtEnd) (If (check KBlockBegin) (Call FBlockExpr) (Call FExpr)))
+        If (CNot CAtEnd) (If (check KBlockBegin) (Call FBlockExpr) (Call FExpr)) (Err EKEof "expression"))
   | FLambdaParamLoop =>
       When (CAnd (CNot (check KLambdaArgBeginEnd)) (CNot CAtEnd)) (
         If (check KIdent) (MarkKind KIdentParameter ;; Bump ;; When (check KColon) (Call FTypeAnnotation)) Bump ;;
